@@ -322,7 +322,7 @@ func c07UnTarIndex(c *fw.Case) *c07Op {
 var c07Ops = []func(c *fw.Case) *c07Op{c07Assemble, c07Verify, c07Chop, c07Copy, c07ChunkStream, c07IndexFromFile, c07Tar, c07UnTar, c07UnTarIndex}
 
 func runC07(c *fw.Case) {
-	if desyncBin() != "" && c.Chance(1, procRate(10), "c07.proc") {
+	if desyncBin() != "" && c.ChanceAdded(1, procRate(10), "c07.proc") {
 		runC07Proc(c)
 		return
 	}
